@@ -23,7 +23,12 @@ use sudachi::prelude::Mode;
 
 const NPOOL: usize = 12;
 
+/// the POS JoinNumericPlugin insists on finding in the grammar (and joins runs of)
+const NUM_POS: usize = NPOOL - 1;
 fn pos_fields(i: usize) -> Vec<String> {
+    if i == NUM_POS {
+        return ["名詞", "数詞", "*", "*", "*", "*"].iter().map(|s| s.to_string()).collect();
+    }
     vec![format!("品{}", i / 3), format!("類{}", i), "*".into(), "*".into(), "*".into(), if i % 2 == 0 { "*".into() } else { "終止形".into() }]
 }
 fn pos_csv(i: usize) -> String {
@@ -168,6 +173,23 @@ struct Case {
     sys: Vec<Row>,
     plugins: Vec<Plug>,
     users: Vec<(bool, Vec<Row>)>,    // (compiled against the configured dictionary?, rows)
+    dup: Vec<Option<usize>>,         // per user position: Some(j) = the very same dictionary file as position j < k, listed again
+    file_route: bool,                // true: dictionaries written to files and named in the configuration (systemDict / userDict,
+                                     // JapaneseDictionary::from_cfg); false: from_cfg_storage with in-memory storage
+    rewrite: Vec<u8>,                // path rewrite plugins in configuration order: 0 JoinNumericPlugin, 1 JoinKatakanaOovPlugin
+}
+impl Case {
+    fn plain(sys: Vec<Row>, plugins: Vec<Plug>, users: Vec<(bool, Vec<Row>)>) -> Case {
+        let n = users.len();
+        Case { sys, plugins, users, dup: vec![None; n], file_route: false, rewrite: vec![] }
+    }
+}
+const REWRITE_NAMES: [&str; 2] = ["JoinNumeric", "JoinKatakanaOov"];
+/// katakana material no dictionary holds
+const KATA_OOV: &str = "ルラ";
+const KATA_LETTERS: [&str; 16] = ["ア", "イ", "ウ", "エ", "オ", "キ", "ク", "ケ", "コ", "サ", "シ", "ス", "セ", "ソ", "タ", "チ"];
+fn is_kata_word(s: &str) -> bool {
+    !s.is_empty() && s.chars().all(|c| ('\u{30A2}'..='\u{30FF}').contains(&c))
 }
 
 fn unit_text(u: &Unit, own: &[Row], sys: &[Row]) -> String {
@@ -245,7 +267,7 @@ fn gen_case(rng: &mut Rng, nusers: usize) -> Case {
     // POS pool split: system uses a low range, plugins and user dictionaries overlap with it and with each other
     let nsys_pos = 1 + rng.below(4) as usize;
     let nsys = 2 + rng.below(5) as usize;
-    let mut sys = vec![];
+    let mut sys: Vec<Row> = vec![];
     for j in 0..nsys {
         let mut r = Row { surface: format!("s{}x", j), reading: format!("ヨ{}", j), pos: rng.below(nsys_pos as u64) as usize, a: vec![], b: vec![], ws: vec![] };
         if j > 1 && rng.chance(1, 3) {
@@ -324,12 +346,46 @@ fn gen_case(rng: &mut Rng, nusers: usize) -> Case {
                 rows[j].ws = gen_units(rng, j, nrows, nsys, true, false);
             }
         }
+        // a short katakana word (shorter than the join plugin's minLength) that unknown katakana can be glued to
+        if rng.chance(1, 2) {
+            let pos = rng.below(NPOOL as u64) as usize;
+            rows.push(Row { surface: format!("カ{}", KATA_LETTERS[d % 16]), reading: format!("カナ{}", d), pos, a: vec![], b: vec![], ws: vec![] });
+        }
         users.push((configured, rows));
     }
-    Case { sys, plugins, users }
+    // the same dictionary file may be listed more than once: every listing is one more dictionary of the stack
+    let mut dup: Vec<Option<usize>> = vec![None; users.len()];
+    for k in 1..users.len() {
+        if rng.chance(1, 5) {
+            let j = rng.below(k as u64) as usize;
+            let j = dup[j].unwrap_or(j);
+            users[k] = users[j].clone();
+            dup[k] = Some(j);
+        }
+    }
+    if rng.chance(2, 3) {
+        let pos = rng.below(nsys_pos as u64) as usize;
+        sys.push(Row { surface: "ピサ".into(), reading: "ピサ".into(), pos, a: vec![], b: vec![], ws: vec![] });
+    }
+    let rewrite: Vec<u8> = match rng.below(6) {
+        0 => vec![],
+        1 => vec![0],
+        2 => vec![1],
+        3 => vec![1, 0],
+        _ => vec![0, 1],
+    };
+    if rewrite.contains(&0) {
+        // JoinNumericPlugin refuses to load unless the grammar knows the numeral POS: a system numeral
+        sys.push(Row { surface: "7".into(), reading: "ナナ".into(), pos: NUM_POS, a: vec![], b: vec![], ws: vec![] });
+    }
+    Case { sys, plugins, users, dup, file_route: rng.chance(1, 2), rewrite }
 }
 
 fn config_json(c: &Case) -> String {
+    config_value(c, true).to_string()
+}
+
+fn config_value(c: &Case, with_rewrite: bool) -> Value {
     let mut plugs = vec![];
     for p in &c.plugins {
         let mut j = match p.kind {
@@ -348,7 +404,48 @@ fn config_json(c: &Case) -> String {
         }
         plugs.push(j);
     }
-    json!({"path": format!("{}/sudachi/tests/resources", repo()), "characterDefinitionFile": "char.def", "oovProviderPlugin": plugs}).to_string()
+    let mut v = json!({"path": format!("{}/sudachi/tests/resources", repo()), "characterDefinitionFile": "char.def", "oovProviderPlugin": plugs});
+    if with_rewrite && !c.rewrite.is_empty() {
+        let mut rw = vec![];
+        for k in &c.rewrite {
+            if *k == 0 {
+                rw.push(json!({"class": "com.worksap.nlp.sudachi.JoinNumericPlugin", "enableNormalize": false}));
+            } else {
+                // the POS of the first system word always exists in the grammar
+                rw.push(json!({"class": "com.worksap.nlp.sudachi.JoinKatakanaOovPlugin", "oovPOS": pos_fields(c.sys[0].pos), "minLength": 3}));
+            }
+        }
+        v["pathRewritePlugin"] = Value::Array(rw);
+    }
+    v
+}
+
+/// a compiled dictionary as a file (name by content, so a dictionary listed twice is the same path twice)
+fn dic_file(bytes: &[u8]) -> String {
+    let dir = DEFDIR.with(|d| d.borrow().clone());
+    std::fs::create_dir_all(&dir).unwrap();
+    let p = dir.join(format!("dic_{:016x}_{}.dic", hash_of(&bytes.to_vec()), bytes.len()));
+    if !p.exists() {
+        std::fs::write(&p, bytes).unwrap();
+    }
+    std::fs::canonicalize(&p).unwrap().to_string_lossy().to_string()
+}
+
+/// loads the stack either from in-memory storage or -- the way the command line and the Python module do it -- from files
+/// named in the configuration (`systemDict`, `userDict` in stack order; a path listed twice is two dictionaries)
+fn load_v(cfgv: &Value, sys: &[u8], users: &[Vec<u8>], file_route: bool) -> Result<JapaneseDictionary, String> {
+    if !file_route {
+        return load(&cfgv.to_string(), sys, users);
+    }
+    let mut v = cfgv.clone();
+    v["systemDict"] = json!(dic_file(sys));
+    v["userDict"] = Value::Array(users.iter().map(|u| json!(dic_file(u))).collect());
+    let cfg = ConfigBuilder::from_bytes(v.to_string().as_bytes()).map_err(|e| format!("config: {:?}", e))?.build();
+    match catch(|| JapaneseDictionary::from_cfg(&cfg)) {
+        Ok(Ok(d)) => Ok(d),
+        Ok(Err(e)) => Err(format!("{:?}", e)),
+        Err(p) => Err(format!("PANIC {}", p)),
+    }
 }
 
 fn load(cfg_json: &str, sys: &[u8], users: &[Vec<u8>]) -> Result<JapaneseDictionary, String> {
@@ -395,6 +492,8 @@ fn case_json(c: &Case) -> Value {
     json!({"kind": "c12", "sys": rows(&c.sys),
            "plugins": c.plugins.iter().map(|p| json!({"kind": p.kind, "provider": KIND_NAMES[p.kind as usize], "mode": p.mode, "userPOS": MODE_NAMES[p.mode as usize], "pos": p.pos, "cats": p.cats, "costs": p.costs, "kata": [p.kata.0, p.kata.1, p.kata.2 > 0, p.kata.2]})).collect::<Vec<_>>(),
            "users": c.users.iter().map(|(cf, rs)| json!({"configured": cf, "rows": rows(rs)})).collect::<Vec<_>>(),
+           "same_file_as": c.dup, "file_route": c.file_route, "rewrite": c.rewrite,
+           "rewrite_plugins": c.rewrite.iter().map(|k| REWRITE_NAMES[*k as usize]).collect::<Vec<_>>(),
            "pos_pool": (0..NPOOL).map(pos_csv).collect::<Vec<_>>()})
 }
 
@@ -436,6 +535,9 @@ fn case_from_json(v: &Value) -> Case {
             })
             .collect(),
         users: v["users"].as_array().unwrap().iter().map(|u| (u["configured"].as_bool().unwrap(), rows(&u["rows"]))).collect(),
+        dup: v["same_file_as"].as_array().map(|a| a.iter().map(|x| x.as_u64().map(|y| y as usize)).collect()).unwrap_or_else(|| vec![None; v["users"].as_array().unwrap().len()]),
+        file_route: v["file_route"].as_bool().unwrap_or(false),
+        rewrite: v["rewrite"].as_array().map(|a| a.iter().map(|x| x.as_u64().unwrap() as u8).collect()).unwrap_or_default(),
     }
 }
 
@@ -501,7 +603,10 @@ fn run_case(sink: &mut Sink, c: &Case, verbose: bool) {
     };
     let _ = matrix;
     // does the configuration load at all (plugins may forbid an unknown POS)?
-    let base = load(&cfg, &sysb, &[]);
+    let cfgv = config_value(c, true);
+    let base = load_v(&cfgv, &sysb, &[], c.file_route);
+    sink.tag(if c.file_route { "load_route=files(from_cfg)" } else { "load_route=storage(from_cfg_storage)" });
+    sink.tag(&format!("path_rewrite={:?}", c.rewrite.iter().map(|k| REWRITE_NAMES[*k as usize]).collect::<Vec<_>>()));
     let mut sys_pos_known: Vec<usize> = vec![];
     for r in &c.sys {
         if !sys_pos_known.contains(&r.pos) {
@@ -583,6 +688,30 @@ fn run_case(sink: &mut Sink, c: &Case, verbose: bool) {
     let mut loaded_ok = true;
     let mut cur: Option<JapaneseDictionary> = Some(base);
     for (k, (configured, rows)) in c.users.iter().enumerate() {
+        if let Some(j) = c.dup[k] {
+            // the same file listed again: one more dictionary of the stack, no new compilation
+            sink.tag("dictionary_listed_again");
+            let again = ubins[j].clone();
+            ubins.push(again);
+            match load_v(&cfgv, &sysb, &ubins, c.file_route) {
+                Ok(dn) => cur = Some(dn),
+                Err(e) => {
+                    loaded_ok = false;
+                    if k + 1 <= 14 {
+                        fail(format!("stack of {} user dictionaries (dictionary {} is the file of dictionary {} listed again) rejected: {}", k + 1, k + 1, j + 1, e), "");
+                    } else if !e.contains("TooManyDictionaries") {
+                        fail(format!("15th user dictionary rejected with an unexpected error: {}", e), "");
+                    } else {
+                        sink.tag("fifteenth_user_dictionary_rejected");
+                    }
+                    break;
+                }
+            }
+            if k + 1 > 14 {
+                fail("a 15th user dictionary was accepted (the same file listed again counts)".to_string(), "");
+            }
+            continue;
+        }
         let csv = render(rows, &c.sys);
         let has_inline = rows.iter().any(|r| r.a.iter().chain(r.b.iter()).any(|u| matches!(u, Unit::Inline(..))));
         let r = if *configured {
@@ -624,7 +753,7 @@ fn run_case(sink: &mut Sink, c: &Case, verbose: bool) {
                 break;
             }
         }
-        match load(&cfg, &sysb, &ubins) {
+        match load_v(&cfgv, &sysb, &ubins, c.file_route) {
             Ok(dn) => cur = Some(dn),
             Err(e) => {
                 loaded_ok = false;
@@ -733,23 +862,106 @@ fn run_case(sink: &mut Sink, c: &Case, verbose: bool) {
             text.push_str(PROBE);
         }
     }
-    let probe_pos = probe_expect(c);
-    let tk = StatelessTokenizer::new(&dict);
-    let toks = catch(|| {
-        let ms = tk.tokenize(&text, Mode::C, false).map_err(|e| format!("{:?}", e))?;
-        let mut v = vec![];
-        for m in ms.iter() {
-            v.push((m.word_id().as_raw(), m.dictionary_id(), m.is_oov(), m.part_of_speech().to_vec(), m.surface().to_string()));
+    // katakana runs: a short dictionary word followed / preceded by katakana no dictionary holds (the join plugin glues them)
+    let mut nk = 0;
+    for dno in 0..=nlayers {
+        let rows: &Vec<Row> = if dno == 0 { &c.sys } else { &c.users[dno - 1].1 };
+        if let Some(r) = rows.iter().find(|r| is_kata_word(&r.surface)) {
+            if nk < 3 {
+                text.push_str(&format!("{}{}@{}{}@", r.surface, KATA_OOV, KATA_OOV, r.surface));
+                nk += 1;
+            }
         }
-        Ok::<_, String>(v)
-    });
+    }
+    if c.sys.iter().any(|r| r.surface == "7") {
+        text.push_str("77@7s0x@");
+    }
+    let probe_pos = probe_expect(c);
+    type Tok = (u32, i32, bool, Vec<String>, String, usize, usize);
+    let tokenize = |d: &JapaneseDictionary| -> Result<Result<Vec<Tok>, String>, String> {
+        let tk = StatelessTokenizer::new(d);
+        catch(|| {
+            let ms = tk.tokenize(&text, Mode::C, false).map_err(|e| format!("{:?}", e))?;
+            let mut v = vec![];
+            for m in ms.iter() {
+                v.push((m.word_id().as_raw(), m.dictionary_id(), m.is_oov(), m.part_of_speech().to_vec(), m.surface().to_string(), m.begin(), m.end()));
+            }
+            Ok::<_, String>(v)
+        })
+    };
+    let mut merged: Vec<String> = vec![];
+    let toks = tokenize(&dict);
+    // the pieces: the same stack and OOV providers without path rewrite plugins (they do not touch the lattice)
+    let pieces: Option<Vec<Tok>> = if c.rewrite.is_empty() {
+        None
+    } else {
+        match load_v(&config_value(c, false), &sysb, &ubins[..nlayers.min(ubins.len())], c.file_route) {
+            Ok(d0) => match tokenize(&d0) {
+                Ok(Ok(v)) => Some(v),
+                Ok(Err(e)) => {
+                    fail(format!("tokenizing {:?} without path rewrite plugins failed: {}", text, e), "");
+                    None
+                }
+                Err(p) => {
+                    fail(format!("tokenizing {:?} without path rewrite plugins panicked: {}", text, p), "");
+                    None
+                }
+            },
+            Err(e) => {
+                fail(format!("the stack does not load without path rewrite plugins: {}", e), "");
+                None
+            }
+        }
+    };
     match toks {
         Ok(Ok(v)) => {
             let plugin_pos: Vec<Vec<String>> = c.plugins.iter().flat_map(|p| p.pos.iter().map(|q| pos_fields(*q))).collect();
             if !v.iter().any(|m| m.4 == PROBE) {
                 sink.tag("probe_not_isolated");
             }
-            for (raw, did, oov, pos, surf) in v {
+            for (raw, did, oov, pos, surf, mb, me) in v {
+                mobs.push(cpair(&cn(raw), &cz(did as i64)));
+                if verbose {
+                    println!("impl morpheme {:?} [{}..{}) word id {:#x} dictionary {} oov {} POS {:?}", surf, mb, me, raw, did, oov, pos);
+                }
+                // a token made by a path rewrite plugin out of several pieces
+                if let Some(ps) = &pieces {
+                    let inside: Vec<&Tok> = ps.iter().filter(|p| p.5 >= mb && p.6 <= me).collect();
+                    let covered: usize = inside.iter().map(|p| p.6 - p.5).sum();
+                    if covered != me - mb || inside.is_empty() {
+                        fail(format!("morpheme {:?} [{}..{}) does not consist of whole tokens of the analysis without path rewrite plugins", surf, mb, me), "");
+                        continue;
+                    }
+                    if inside.len() > 1 {
+                        sink.tag("merged_token");
+                        merged.push(cpair(&cn(raw), &clist(inside.iter().map(|p| cn(p.0)))));
+                        let any_oov = inside.iter().any(|p| p.2);
+                        if verbose {
+                            println!("   merged from {:?}", inside.iter().map(|p| (p.4.clone(), p.1)).collect::<Vec<_>>());
+                        }
+                        if any_oov {
+                            sink.tag("merged_token_with_oov_part");
+                            if !oov || did != -1 {
+                                fail(format!("merged token {:?} contains the out-of-vocabulary part {:?} but reports dictionary {} (is_oov {}); its parts (surface, dictionary): {:?}", surf, inside.iter().find(|p| p.2).unwrap().4, did, oov, inside.iter().map(|p| (p.4.clone(), p.1)).collect::<Vec<_>>()), "");
+                            }
+                        } else if did != -1 && !inside.iter().any(|p| p.1 == did) {
+                            fail(format!("merged token {:?} reports dictionary {}, none of its parts comes from it: {:?}", surf, did, inside.iter().map(|p| (p.4.clone(), p.1)).collect::<Vec<_>>()), "");
+                        }
+                        if oov != (did == -1) {
+                            fail(format!("merged token {:?}: is_oov {} but dictionary {}", surf, oov, did), "");
+                        }
+                        let join_pos = pos_fields(c.sys[0].pos);
+                        if pos != join_pos && pos != inside[0].3 {
+                            fail(format!("merged token {:?} reports POS {:?}: neither the join plugin's POS nor the POS of its first part", surf, pos), "");
+                        }
+                        continue;
+                    }
+                    // untouched token: identical to the piece
+                    let p0 = inside[0];
+                    if (p0.0, p0.1, p0.2, &p0.3) != (raw, did, oov, &pos) {
+                        fail(format!("token {:?} differs from the analysis without path rewrite plugins although it was not merged: {:?} vs {:?}", surf, (raw, did, oov, &pos), (p0.0, p0.1, p0.2, &p0.3)), "");
+                    }
+                }
                 if oov {
                     sink.tag("oov_morpheme");
                     if did != -1 {
@@ -782,13 +994,12 @@ fn run_case(sink: &mut Sink, c: &Case, verbose: bool) {
                         None => fail(format!("morpheme {:?} carries word id ({}, {}) which no dictionary holds", surf, dno, i), ""),
                     }
                 }
-                mobs.push(cpair(&cn(raw), &cz(did as i64)));
             }
         }
         Ok(Err(e)) => fail(format!("tokenizing {:?} failed: {}", text, e), ""),
         Err(p) => fail(format!("tokenizing {:?} panicked: {}", text, p), ""),
     }
-    let term = format!("check_case_c12 {} {} {} {}", head, cbool(loaded_ok), clist(obs), clist(mobs));
+    let term = format!("check_case_c12m {} {} {} {} {}", head, cbool(loaded_ok), clist(obs), clist(mobs), clist(merged));
     let id = sink.case(term, d, nontrivial);
     if let Some((w, cl)) = bad.into_inner() {
         if verbose {
@@ -843,7 +1054,7 @@ pub fn run(args: &Args) {
                 Row { surface: "u1w1".into(), reading: "ユ1".into(), pos: 5, a: vec![Unit::Own(0), Unit::Sys(1)], b: vec![], ws: vec![Unit::Own(0), Unit::Sys(1)] },
                 Row { surface: "u1w2".into(), reading: "ユ2".into(), pos: 1, a: vec![Unit::Inline(true, 0), Unit::Inline(false, 0)], b: vec![], ws: vec![] },
             ];
-            let c = Case { sys: sys.clone(), plugins: vec![Plug::simple(5, 0)], users: vec![(configured, rows)] };
+            let c = Case::plain(sys.clone(), vec![Plug::simple(5, 0)], vec![(configured, rows)]);
             run_case(&mut sink, &c, false);
             sink.tag("directed_plugin_pos_then_user_pos");
         }
@@ -855,7 +1066,7 @@ pub fn run(args: &Args) {
         let sys = vec![mk("s0x", 0, vec![]), mk("s1x", 1, vec![])];
         let u1 = vec![mk("u1w0", 2, vec![]), mk("u1w1", 3, vec![]), mk("u1w2", 3, vec![])];
         let u2 = vec![mk("u2w0", 4, vec![Unit::Sys(1), Unit::Sys(3)])];
-        let c = Case { sys, plugins: vec![Plug::simple(0, 0)], users: vec![(false, u1), (true, u2)] };
+        let c = Case::plain(sys, vec![Plug::simple(0, 0)], vec![(false, u1), (true, u2)]);
         run_case(&mut sink, &c, false);
     }
     // directed: every provider kind x userPOS allow / forbid / key absent x POS present / absent in the system dictionary,
@@ -872,11 +1083,41 @@ pub fn run(args: &Args) {
                     plugins.push(Plug::simple(0, 1));
                 }
                 let u1 = vec![mk("u1w0", q), mk("u1w1", 8), mk("u1w2", 0)];
-                let c = Case { sys, plugins, users: vec![(unknown, u1)] };
+                let c = Case::plain(sys, plugins, vec![(unknown, u1)]);
                 run_case(&mut sink, &c, false);
                 sink.tag("directed_provider_x_userpos_x_pos");
             }
         }
+    }
+    // directed: the same dictionary file listed more than once (both load routes): [u1, u1, u2], 13 x u1 + u2, and 15 listings
+    // of which two name the same file (must be rejected like any 15th user dictionary)
+    for file_route in [false, true] {
+        let mk = |s: &str, pos: usize| Row { surface: s.into(), reading: format!("ヨ{}", s), pos, a: vec![], b: vec![], ws: vec![] };
+        let sys = vec![mk("s0x", 0), mk("s1x", 1)];
+        let u1 = vec![mk("u1w0", 2), mk("u1w1", 0)];
+        let u2 = vec![mk("u2w0", 3), Row { surface: "u2w1".into(), reading: "ヨu2w1".into(), pos: 2, a: vec![Unit::Own(0), Unit::Sys(1)], b: vec![], ws: vec![] }];
+        for n1 in [2usize, 13, 14] {
+            let mut users = vec![(false, u1.clone()); n1];
+            users.push((false, u2.clone()));
+            let mut dup = vec![None; n1 + 1];
+            for k in 1..n1 {
+                dup[k] = Some(0);
+            }
+            let c = Case { sys: sys.clone(), plugins: vec![Plug::simple(0, 0)], users, dup, file_route, rewrite: vec![] };
+            run_case(&mut sink, &c, false);
+            sink.tag("directed_dictionary_listed_again");
+        }
+    }
+    // directed: katakana runs glued by JoinKatakanaOovPlugin -- dictionary word (system / user) + unknown katakana and the
+    // other way round, with and without JoinNumericPlugin in front
+    for rewrite in [vec![1u8], vec![0, 1]] {
+        let mk = |s: &str, pos: usize| Row { surface: s.into(), reading: format!("ヨ{}", s), pos, a: vec![], b: vec![], ws: vec![] };
+        let sys = vec![mk("s0x", 0), mk("s1x", 1), mk("ピサ", 1), mk("7", NUM_POS)];
+        let u1 = vec![mk("u1w0", 5), mk("カア", 7)];
+        let u2 = vec![mk("u2w0", 0), mk("カイ", 2)];
+        let c = Case { sys, plugins: vec![Plug::simple(0, 0)], users: vec![(false, u1), (true, u2)], dup: vec![None, None], file_route: false, rewrite };
+        run_case(&mut sink, &c, false);
+        sink.tag("directed_katakana_join");
     }
     // directed: 14 user dictionaries accepted, the 15th rejected
     for n in [14usize, 15] {
